@@ -75,6 +75,11 @@ def check_negra(mtj, order=None):
                     'what': 'negra_mark_heads: ' + kind})
     try:
         t = build_any(mt, order)
+        if order == 'rev':
+            # non-initial state: the tree already carries head marks (every node marked as head, as a careless
+            # earlier step might leave them); the heuristic must set all of them anew
+            for x in all_nodes(t):
+                x.data['head'] = True
         r = transform.negra_mark_heads(t)
     except Exception as e:
         bad('exception', '%s: %s' % (type(e).__name__, e))
@@ -259,9 +264,10 @@ def check_tables():
 def check_reject():
     out = []
     mt = rule_tree('NP', ['ART', 'NN'], True)
-    for params, label in (({'mark_heads_preset': 'tiger2'}, 'unknown preset'),
-                          ({}, 'neither preset nor rule file'),
-                          ({'mark_heads_preset': 'negra', 'mark_heads_rulefile': 'x'}, 'both preset and rule file')):
+    unknown = ['tiger2', '', 'neg', 'negr', 'egra', 'a', 'pt', 'tb', 'NEGRA', 'Ptb', 'negra ', 'negra,ptb', 'negra2', 'ptb3']
+    for params, label in [({'mark_heads_preset': u}, 'unknown preset %r' % u) for u in unknown] + \
+                         [({}, 'neither preset nor rule file'),
+                          ({'mark_heads_preset': 'negra', 'mark_heads_rulefile': 'x'}, 'both preset and rule file')]:
         try:
             transform.mark_heads_by_rules(build(mt), **params)
             out.append({'kind': 'not-rejected', 'where': 'mark_heads_by_rules', 'case': {'reject': label},
